@@ -600,6 +600,9 @@ vp('C10', 'fire', 'seeded/C10-empty-innovations-shape/patch.diff', 'round-9 seed
 _FS_OLD = "        result = self._transform_to_output_3d(trajectory)\n        if not self.with_altitude:"
 v('C05 C04 C13', 'fire', 'error_model.py', _FS_OLD, "        if getattr(self, '_last_trajectory', None) is trajectory:\n            return self._last_T\n        result = self._transform_to_output_3d(trajectory)\n        self._last_trajectory = trajectory\n        self._last_T = result\n        if not self.with_altitude:",
   'memo in the instance keyed by the identity of the argument')
+# ------------------------------------------------------------------ TAIL-SLICE concat keywords (sixth session)
+v('C02 C01 C09', 'fire', 'strapdown.py', 'self.trajectory = pd.concat([self.trajectory, trajectory])', 'self.trajectory = pd.concat([self.trajectory, trajectory], ignore_index=True)', 'rows renumbered: the time index is lost')
+v('C02 C01 C09', 'silent', 'strapdown.py', 'self.trajectory = pd.concat([self.trajectory, trajectory])', 'self.trajectory = pd.concat([self.trajectory, trajectory], axis=0, copy=False)', 'harmless keywords')
 # ------------------------------------------------------------------ geometry C16 C05 C04 C03 C18
 T = 'transform.py'
 v('C16 C05', 'fire', T, '    rn, _, rp = earth.principal_radii(lla[:, 0], lla[:, 2])\n\n    lla[:, 0] +=',
